@@ -28,7 +28,8 @@ Sym == Permutations(Clients) \cup Permutations(Workers)
 \* only in the ORDER in which a client was written to are identified
 BagOf(s) == [x \in {s[i] : i \in DOMAIN s} |-> Cardinality({i \in DOMAIN s : s[i] = x})]
 MCView == <<cst, sent, pings, net, pending, incoming, streams, lpc, keys, cur, q, wst, wtask, outgoing, ext,
-            shut, [c \in Clients |-> BagOf(sentTo[c])], rxn, dseq, iseq, admitted, tmo, flog>>
+            shut, [c \in Clients |-> BagOf(sentTo[c])], rxn, dseq, iseq, admitted, tmo, flog,
+            wp, rounds, pq, act, tmoBad>>
 
 \* "can happen" claims: each is the NEGATION of a situation the properties talk about; TLC must
 \* violate it (vacuity guard: the antecedents of the invariants are reachable)
